@@ -8,7 +8,8 @@ LEVEL_TEXT = ("Coq theorems over ALL schedules of the listener/WaitGroup/session
 LEVEL_NOTE = ("The theorems are about coq/Model/Lifecycle.v and Model/Hub.v. Accept+wg.Add of the accept loop is ONE step of the model "
               "(the window between Accept() returning and wg.Add in the serve goroutine is not modelled; it cannot be forced from outside). "
               "The session's protocol dialogue is abstracted to positions (greeted … DATA in flight / DELE marked / UPDATE); the full dialogues are "
-              "C01/C03/C13's. Not modelled: the kernel's listen backlog, timedExit's 15 s, TLS. The tie between model and code is sampled.")
+              "C01/C03/C13's. Not modelled: the kernel's listen backlog, timedExit's 15 s. The TLS handshake itself is not modelled, only its "
+              "effect on the session count (a client failing the handshake of a ForceTLS POP3 server = accepted, started, ended). The tie between model and code is sampled.")
 TECHNIQUE = "machine-checked proof in Coq + model/code correspondence check"
 DESIGN_REF = "DESIGN.md §4 C19"
 RULE = ("life: one line = a schedule run by one goroutine against real servers started on 127.0.0.1:0 under one context: up to 3 sessions "
@@ -28,7 +29,7 @@ EXEC_TIMEOUT = {"quick": 600, "thorough": 7200}
 
 
 def nontrivial(kind, ins, outs):
-    if kind == "life":
+    if kind in ("life", "tls"):
         ops = ins[0].split(",")
         if "k" not in ops:
             return False
@@ -41,7 +42,7 @@ def nontrivial(kind, ins, outs):
 
 def shrink_candidates(inp):
     parts = inp.split(" ")
-    if parts[0] != "life" or len(parts) < 2 or parts[1] == "-":
+    if parts[0] not in ("life", "tls") or len(parts) < 2 or parts[1] == "-":
         return
     ops = parts[1].split(",")
     for i in range(len(ops) - 1, -1, -1):
@@ -50,4 +51,4 @@ def shrink_candidates(inp):
         if ops[i][0] in "oO":
             sid = ops[i][1:].split(":")[0]
             cand = [o for o in cand if not (o[0] in "pfaL" and o[1:].split(":")[0] == sid)]
-        yield "life " + (",".join(cand) if cand else "-")
+        yield parts[0] + " " + (",".join(cand) if cand else "-")
